@@ -171,6 +171,7 @@ def probe_class(c, shape, op, RN):
                 if i >= len(b) or i >= len(base) or ((b[i] ^ base[i]) >> k) & 1]
         enc.append(diff)
     dec = []
+    decv = []
     index = {(j, sub, bit): pos for (j, sub, bit, pos) in canon}
     for pos in range(8, 56):
         raw = bytearray(base)
@@ -183,7 +184,23 @@ def probe_class(c, shape, op, RN):
                 if v:
                     got.append(index[(j, sub, bit)])
         dec.append(sorted(got))
-    return list(base), enc, dec
+        decv.append([v for o in ops for v in flat_values(o, op)])
+    return list(base), enc, dec, decv
+
+
+def flat_values(o, op):
+    """decoded operand as plain integers (registers as bank, index)"""
+    if isinstance(o, op.Register):
+        return [o.name.value, o.index]
+    if isinstance(o, op.Immediate):
+        return [o.value]
+    if isinstance(o, op.Address):
+        return [o.address]
+    if isinstance(o, op.ArrayEntry):
+        return [o.address.address, o.index.name.value, o.index.index]
+    if isinstance(o, op.ArraySlice):
+        return [o.address.address, o.start.name.value, o.start.index, o.stop.name.value, o.stop.index]
+    raise TypeError(o)
 
 
 def collect():
@@ -217,6 +234,10 @@ def nat_ll(ll):
     return "[" + ", ".join("[" + ", ".join(map(str, l)) + "]" for l in ll) + "]"
 
 
+def int_ll(ll):
+    return "[" + ", ".join("[" + ", ".join(common.lean_int(v) for v in l) + "]" for l in ll) + "]"
+
+
 def generate():
     core, flavours, rows, probes = collect()
     known = []
@@ -245,9 +266,9 @@ def generate():
     L.append("/-- every instruction class once, with its all-zero encoding and its probes -/")
     L.append("def probes : List Probe := [")
     items = []
-    for c, (base, enc, dec) in probes.items():
-        items.append("  { row := %s,\n    base := [%s],\n    enc := %s,\n    dec := %s }" % (
-            lean_row(rows[c]), ", ".join(map(str, base)), nat_ll(enc), nat_ll(dec)))
+    for c, (base, enc, dec, decv) in probes.items():
+        items.append("  { row := %s,\n    base := [%s],\n    enc := %s,\n    dec := %s,\n    decv := %s }" % (
+            lean_row(rows[c]), ", ".join(map(str, base)), nat_ll(enc), nat_ll(dec), int_ll(decv)))
     L.append(",\n".join(items))
     L.append("]")
     L.append("")
